@@ -3,6 +3,14 @@
 //! flag, metadata-id extension on/off, batch shapes); every request frame the node received is
 //! reported next to WHAT WAS ASKED, in the case syntax of c09.rs with '/' instead of blanks:
 //!   Q/<text>/<qparams>   E/2/<id>/<mid|N>/<qparams>   B/c/<type>/<cons>/<serial>/<ts>/<stmts>/<vals>
+//! Connection setup is covered too: every OPTIONS / STARTUP / REGISTER frame the node received while the
+//! Session was being built is reported as  O  |  S/<key>=<value>,..  |  R/2/<events>  next to what the
+//! session builder asked for: CQL_VERSION 4.0.0, the custom driver name / version, optional application
+//! name / version / client id (SelfIdentity), and one opt-in entry per protocol extension the node
+//! advertised (SCYLLA_RATE_LIMIT_ERROR, SCYLLA_LWT_ADD_METADATA_MARK with the mask, TABLETS_ROUTING_V1,
+//! SCYLLA_USE_METADATA_ID); the control connection registers for TOPOLOGY/STATUS/SCHEMA_CHANGE.  STARTUP maps
+//! and REGISTER lists are compared as sets.  (No compression: the mock cannot decompress; no AUTH_RESPONSE:
+//! the mock never sends AUTHENTICATE.)
 //! The OCaml driver parses the frame with the extracted independent parser and compares.
 //! What is "asked" follows the documented semantics of the Session API:
 //!   * consistency / serial consistency: the statement's, else the default execution profile's
@@ -14,6 +22,7 @@
 //!     and (use_cached_result_metadata or the metadata-id extension is negotiated); with the
 //!     extension EXECUTE carries the result metadata id (empty when metadata is not skipped)
 //!   * values: the bound Rust values serialised as int = 4 bytes big-endian, text = UTF-8
+use scylla::client::SelfIdentity;
 use scylla::client::session_builder::SessionBuilder;
 use scylla::response::PagingState;
 use scylla::statement::batch::{Batch, BatchType};
@@ -110,6 +119,28 @@ pub async fn run(serial: u64) -> Result<String, String> {
     let mut spec = mock::ClusterSpec::uniform("c09", &[("dc1", 1)], 1, 4, 2)
         .with_keyspace(mock::KeyspaceDef::simple("ks", 1).with_table(table.clone()));
     spec.options.metadata_id_ext = ext;
+    // which extensions the node advertises, and the identity the application configures
+    let lwt_mask: Option<u32> = *r.pick(&[None, Some(0x8000_0000u32), Some(1), Some(0x0102_0304)]);
+    spec.options.lwt_mark = lwt_mask;
+    spec.options.tablets_ext = r.bool();
+    let rate: Option<i32> = *r.pick(&[None, Some(61440), Some(1)]);
+    spec.options.rate_limit_error = rate;
+    let drv_name = *r.pick(&["verif-driver", "", "ScyllaDB Rust Driver (wrapped)", "żółw"]);
+    let drv_ver = *r.pick(&["0.0.1-c09", "9.9.9", ""]);
+    let app_name = if r.bool() { Some(*r.pick(&["c09-app", "app with spaces"])) } else { None };
+    let app_ver = if r.bool() { Some("1.2.3") } else { None };
+    let client_id = if r.bool() { Some("5d859006-4c1e-4c66-9d54-f29a2a09b1e4") } else { None };
+    let mut identity = SelfIdentity::new().with_custom_driver_name(drv_name).with_custom_driver_version(drv_ver);
+    if let Some(a) = app_name {
+        identity = identity.with_application_name(a);
+    }
+    if let Some(a) = app_ver {
+        identity = identity.with_application_version(a);
+    }
+    if let Some(c) = client_id {
+        identity = identity.with_client_id(c);
+    }
+    let tablets = spec.options.tablets_ext;
     let cluster = mock::MockCluster::start(spec).await.map_err(|e| format!("mock start: {e}"))?;
     let select = "SELECT pk, ck, v FROM ks.t WHERE pk = ? AND ck = ?";
     let insert = "INSERT INTO ks.t (pk, ck, v) VALUES (?, ?, ?)";
@@ -124,6 +155,7 @@ pub async fn run(serial: u64) -> Result<String, String> {
     let session = SessionBuilder::new()
         .known_node_addr(cluster.contact_point(0))
         .local_ip_address(Some(cluster.client_ip()))
+        .custom_identity(identity)
         .connection_timeout(Duration::from_secs(5))
         .cluster_metadata_refresh_interval(Duration::from_secs(600))
         .build()
@@ -135,10 +167,71 @@ pub async fn run(serial: u64) -> Result<String, String> {
     let ins_id = cluster.prepared_id(insert);
     let ids = vec![sel_id.clone(), ins_id.clone()];
     tokio::time::sleep(Duration::from_millis(50)).await;
-    cluster.drain_trace();
+    // ---- connection setup frames
+    let mut want: Vec<(String, String)> = vec![
+        ("CQL_VERSION".into(), "4.0.0".into()),
+        ("DRIVER_NAME".into(), drv_name.into()),
+        ("DRIVER_VERSION".into(), drv_ver.into()),
+    ];
+    if let Some(a) = app_name {
+        want.push(("APPLICATION_NAME".into(), a.into()));
+    }
+    if let Some(a) = app_ver {
+        want.push(("APPLICATION_VERSION".into(), a.into()));
+    }
+    if let Some(c) = client_id {
+        want.push(("CLIENT_ID".into(), c.into()));
+    }
+    if rate.is_some() {
+        want.push(("SCYLLA_RATE_LIMIT_ERROR".into(), "".into()));
+    }
+    if let Some(m) = lwt_mask {
+        want.push(("SCYLLA_LWT_ADD_METADATA_MARK".into(), format!("LWT_OPTIMIZATION_META_BIT_MASK={}", m)));
+    }
+    if tablets {
+        want.push(("TABLETS_ROUTING_V1".into(), "".into()));
+    }
+    if ext {
+        want.push(("SCYLLA_USE_METADATA_ID".into(), "".into()));
+    }
+    let startup_asked = format!(
+        "S/{}",
+        want.iter().map(|(k, v)| format!("{}={}", hex_bytes(k.as_bytes()), hex_bytes(v.as_bytes()))).collect::<Vec<_>>().join(",")
+    );
+    let mut setup: Vec<String> = vec![];
+    let (mut n_o, mut n_s, mut n_r) = (0, 0, 0);
+    for e in cluster.drain_trace() {
+        if let Ev::In { version, flags, stream, opcode, body } = &e.ev {
+            let asked = match *opcode {
+                op::OPTIONS if n_o < 3 => {
+                    n_o += 1;
+                    "O".to_string()
+                }
+                op::STARTUP if n_s < 4 => {
+                    n_s += 1;
+                    startup_asked.clone()
+                }
+                op::REGISTER if n_r < 2 => {
+                    n_r += 1;
+                    "R/2/t,s,c".to_string()
+                }
+                _ => continue,
+            };
+            let mut f = vec![*version, *flags];
+            f.extend_from_slice(&stream.to_be_bytes());
+            f.push(*opcode);
+            f.extend_from_slice(&(body.len() as u32).to_be_bytes());
+            f.extend_from_slice(body);
+            setup.push(format!("{}:{}", asked, hex_bytes(&f)));
+        }
+    }
+    if n_o == 0 || n_s == 0 || n_r == 0 {
+        cluster.shutdown();
+        return Err(format!("setup frames not seen: options {n_o} startup {n_s} register {n_r}"));
+    }
 
     let nreq = 10;
-    let mut items: Vec<String> = vec![];
+    let mut items: Vec<String> = setup;
     for i in 0..nreq {
         let o = Opts::make(&mut r);
         let kind = r.below(7);
